@@ -97,15 +97,11 @@ func Run(c *vlib.Ctx, scns []*Scn, o Opts) {
 	}
 	silence()
 	defer restore()
-	// scenario-level sharding, heaviest-first order is unknown: interleave by index
-	idx := make([]int, 0, len(scns))
+	// scenario-level sharding through a shared claim directory (dynamic load balancing)
 	for i := range scns {
-		if i%c.Shards == c.Shard {
-			idx = append(idx, i)
-		}
-	}
-	for _, i := range idx {
+		i := i
 		s := scns[i]
+		mine := c.ClaimKey(fmt.Sprintf("scn-%d-owner", i), i) // the owner reports the scenario line
 		if c.Expired() {
 			c.NotExhaustive(fmt.Sprintf("scenario %s not explored (budget)", s.Name))
 			continue
@@ -114,12 +110,16 @@ func Run(c *vlib.Ctx, scns []*Scn, o Opts) {
 		if o.PerScenarioBudget > 0 {
 			deadline = time.Now().Add(o.PerScenarioBudget)
 		}
-		st, found, err := vsched.ExploreScenario(s.Scenario, vsched.Options{Bound: s.Bound, SelectCost: o.SelectCost, Deadline: deadline})
+		st, found, err := vsched.ExploreScenario(s.Scenario, vsched.Options{Bound: s.Bound, SelectCost: o.SelectCost, Deadline: deadline,
+			Claim: func(chunk int) bool { return c.ClaimKey(fmt.Sprintf("scn-%d-chunk-%d", i, chunk+1), i+chunk+1) }})
 		if err != nil {
 			c.EngineError("%v", err)
 			continue
 		}
-		c.Scenario(fmt.Sprintf("%s bound=%d executions=%d distinct_traces=%d complete=%v", s.Name, s.Bound, st.Executions, len(st.Traces), st.Complete))
+		if mine {
+			c.Scenario(fmt.Sprintf("%s bound=%d", s.Name, s.Bound))
+		}
+		c.ExtraAdd("executions/"+s.Family, st.Executions)
 		c.Add(st.Decisions, st.Points, st.Executions)
 		keys := make([]string, 0, len(st.Traces))
 		for k := range st.Traces {
@@ -139,9 +139,6 @@ func Run(c *vlib.Ctx, scns []*Scn, o Opts) {
 		}
 		if !st.Complete {
 			c.NotExhaustive(fmt.Sprintf("scenario %s: bound %d not completed: %s", s.Name, s.Bound, st.Truncated))
-		}
-		if len(st.Traces) == 1 && st.Executions > 50 {
-			c.ExtraAdd("vacuous_scenarios", 1)
 		}
 		for _, sm := range st.Sample {
 			if i < 4*c.Shards {
